@@ -163,6 +163,9 @@ func (x *Exec) ghostCount(st *State, name string, args []*Val) {
 	}
 	st.ghost[k] = Add(cur, IntLit(1))
 	st.calls = append(st.calls, name)
+	if x.seenCalls != nil {
+		x.seenCalls[name] = true
+	}
 	// remember scalar arguments of the last call for effect specs: lastarg("name", i)
 	for i, a := range args {
 		if a != nil && a.K == kScalar {
